@@ -1,6 +1,6 @@
 SPECIFICATION MCSpec
 CONSTANTS
-  Layouts <- CatSub
+  Layouts <- CatQSub
   Impl <- NoDevs
 CONSTRAINT MCBound5
 INVARIANT TypeOK
